@@ -223,11 +223,12 @@ def simplify_math_iterators(source: str) -> str:
     )
 
     for node in core.walk(root, template):
+        if node.func.id != "sum":
+            continue  # The closed forms below are those of sums, len([1, 2, 3]) is not 6
+
         arg = node.args[0]
         if core.match_template(arg, ast.Call(func=ast.Name(id="range"))):
             if any((node is not arg for node in core.walk(arg, (ast.Attribute, ast.Call)))):
-                continue
-            if node.func.id != "sum":
                 continue
             try:
                 replacement = _sum_range(arg)
